@@ -90,6 +90,10 @@ impl<'a> Alloc<'a> for LLFree<'a> {
 
         // Initialize per-CPU data
         let locals = Locals::new(meta.local, classing)?;
+        if init != Init::None {
+            // The buffer might contain anything: start without reservations
+            locals.clear();
+        }
 
         // Init tree array
         let tree_init = if init == Init::None {
